@@ -104,7 +104,7 @@ func c25SkipOnlyIdentical(p *core.Program, r *core.Report) {
 					} else if c := core.CalleeOf(info, x); c != nil {
 						if decls[c] != nil {
 							visit(c)
-						} else if c.Pkg() != nil && c.Pkg().Path() == "reflect" {
+						} else if c.Pkg() != nil && c.Pkg().Path() == "reflect" && c.Name() != "DeepEqual" { // DeepEqual distinguishes types like == does
 							why = "reflection at " + p.Pos(x.Pos())
 						}
 					}
